@@ -173,6 +173,26 @@ CHECKS = {
         ],
         "floors": {"quick": {"script:fake_remote": 500, "script:sge": 200, "quote": 10000}},
     },
+    "C16": {
+        "level": "exploration",
+        "engine": "E1",
+        "needs_bins": [],
+        "technique": "property-based testing (rapid): round trip invocation data -> MRO text -> invocation data with exact-number JSON comparison, compile + EquivalentCall of the produced text; per-fork _invocation of generated E1 runs recompiled and compared with _args",
+        "level_text": ("(a,b) generated callable signatures over generated type universes x JSON argument values of the declared types (nested structs, typed maps, multi-dimensional arrays, "
+                       "nulls, 64-bit boundary integers, floats with exponents, strings with escapes / control / non-ASCII characters) x any consistent subset of arguments split over an "
+                       "array or a map: BuildCallSource -> InvocationDataFromSource must return the same call, include, split set and arguments (numbers compared as exact decimals), the "
+                       "text must compile against the definitions and text -> data -> text must be EquivalentCall both ways. (c) after generated E1 runs, every stage fork's _invocation "
+                       "must compile against _mrosource as a call of that stage whose arguments equal the fork's _args. Exploration."),
+        "level_note": "mrg's command line wrapper is not exercised; floats written as >= 20 plain digits are excluded (known finding).",
+        "rule": ("(a,b) rapid universe + 1-5 parameters + values (null rate 0/5/20%) + split kind; non-trivial: an argument of struct / typed map / >=2-dimensional array type or a split argument. "
+                 "(c) programs and schedules as for C01; non-trivial: >= 2 stage forks checked. Distinct by hash of definitions + call text / program + schedule."),
+        "assumptions": _SEM_ASSUME,
+        "units": [
+            U("props/run", "TestC16RoundTrip", (6000, 6), (100000, 8)),
+            U("props/run", "TestC16ForkInvocations", (400, 8), (6000, 8)),
+        ],
+        "floors": {"quick": {"roundtrip": 20000, "split-arg": 5000, "fork-invocations": 2000}},
+    },
     "C17": {
         "level": "exploration",
         "technique": "property-based testing (rapid): differential against an independent reference validator/filter, idempotence, assignability laws",
